@@ -348,6 +348,37 @@ def check_map_api(problems):
     return tried
 
 
+def run_c04_sizes(seed, focus):
+    """C04, last clause (bounded): workflows of any size: the commands terminate without crashing on an empty workflow,
+    a single target, a selection matching nothing, and (replay/enum_deep.py) one chain of thousands of targets"""
+    problems, tried = [], 0
+    sources = {"empty workflow": "from gwf import Workflow\ngwf = Workflow()\n",
+               "one target": "from gwf import Workflow\ngwf = Workflow()\n"
+                             "gwf.target('a', inputs=[], outputs=['a.txt']) << 'echo'\n"}
+    commands = [("status",), ("status", "-f", "summary"), ("status", "nomatch*"), ("status", "-f", "summary", "nomatch*"),
+                ("status", "--endpoints"), ("run", "--dry-run"), ("run", "--dry-run", "nomatch*"), ("info",),
+                ("info", "-f", "pretty"), ("touch",), ("clean", "--all", "-f"), ("cancel", "-f"), ("run",),
+                ("status", "-f", "summary"), ("cancel", "-f")]
+    for label, src in sources.items():
+        p = Project([], source=src)
+        try:
+            for cmd in commands:
+                tried += 1
+                code, out = p.gwf(*cmd)
+                if code != 0:
+                    problems.append(f"{label}: `gwf {' '.join(cmd)}` ended with exit status {code}: {out.strip()[-160:]}")
+        finally:
+            p.close()
+    if problems:
+        return result(problems, tried, "workflow sizes")
+    from replay import enum_deep
+    r = enum_deep.replay(None, None, None, seed)
+    r["candidates_tried"] = r.get("candidates_tried", 0) + tried
+    if not r["failed_on_real_code"]:
+        r["bound"] = "empty and single-target workflows through 15 command lines; " + r["bound"]
+    return r
+
+
 def run_c03_info(seed, focus):
     """C03, last clause: `gwf info` reports the same relations as the graph: for every target the dependencies are the
     producers of its inputs (whatever the spelling), the dependents the exact inverse"""
